@@ -321,13 +321,17 @@ def find_operators(expr: sympy.Expr) -> list[OperatorType]:
     """
     # replace n -> a† * a and convert number ordered forms to expressions.
     # Number operator of ladder operators need to be included separately.
-    expr = expr.doit()
+    # Operators of terms that vanish identically (c† n_c) only occur before doit.
+    original, expr = expr, expr.doit()
     return sorted(
         set().union(
             (
                 op
                 for particle, generator in zip(operator_types, generator_types)
-                for op in (generator(atom.name) for atom in expr.atoms(particle))
+                for op in (
+                    generator(atom.name)
+                    for atom in (*original.atoms(particle), *expr.atoms(particle))
+                )
             ),
             (
                 LadderOp(atom.name)
